@@ -36,7 +36,7 @@ __CPROVER_ensures(g_caught ==> g_fin_flag)
 __CPROVER_ensures(g_error_writes == ((g_xchg && !g_xchg_old) ? 1 : 0))
 __CPROVER_ensures((g_xchg && !g_xchg_old) ==> (g_caught && g_fin_error_has && g_fin_error_tok == g_thrown_tok))
 __CPROVER_assigns(RECV_FRAME)
-//@LIFT body_recv_value
+//@LIFT body
 #endif
 
 #ifdef U_WA_RECV_ERROR
@@ -48,7 +48,7 @@ __CPROVER_ensures(g_finish == 1 && !vx_exc && g_fin_flag && g_xchg)
 __CPROVER_ensures(g_error_writes == (g_xchg_old ? 0 : 1))
 __CPROVER_ensures(!g_xchg_old ==> (g_fin_error_has && (g_caught ? g_fin_error_tok == g_thrown_tok : g_fin_error_tok == error)))
 __CPROVER_assigns(RECV_FRAME)
-//@LIFT body_recv_error
+//@LIFT body
 #endif
 
 #ifdef U_WA_RECV_STOPPED
@@ -57,7 +57,7 @@ void war_set_stopped(struct wa_receiver *self)
 __CPROVER_requires(RECV_PRE(self))
 __CPROVER_ensures(g_finish == 1 && !vx_exc && g_fin_flag && g_error_writes == 0)
 __CPROVER_assigns(RECV_FRAME)
-//@LIFT body_recv_stopped
+//@LIFT body
 #endif
 
 #if defined(U_WA_FINISH) && !WA_VECTOR
@@ -83,7 +83,7 @@ __CPROVER_ensures((g_set_value == 1 && !WA_VECTOR && g_victim < self->ts.n) ==> 
 __CPROVER_ensures((g_set_value == 1 && WA_VECTOR && !IS_VOID_VALUE) ==> (g_vec.n == self->ts.n && (g_victim < self->ts.n ==> (g_vec.has_victim && g_vec.victim_pos == g_victim && g_vec.victim_tok == self->ts.victim_tok))))
 __CPROVER_assigns(self->predecessors_remaining, self->set_stopped_error_called, self->error_has, self->error_tok, self->ts, g_alive, g_lin, g_lin_old, g_lin_new, \
   g_set_value, g_set_error, g_set_stopped, g_tok, g_vec, g_pack_victim_ok, g_stopped_seen, g_env_step)
-//@LIFT body_finish
+//@LIFT body
 #endif
 
 #ifdef U_WAV_START
@@ -96,7 +96,17 @@ __CPROVER_ensures(g_set_value == (g_np == 0 ? 1 : 0) && g_set_error == 0 && g_se
 __CPROVER_ensures((g_np == 0 && !IS_VOID_VALUE) ==> g_vec.n == 0)
 __CPROVER_ensures(g_child_starts_victim == (g_victim < g_np ? 1 : 0))
 __CPROVER_assigns(g_alive, g_set_value, g_tok, g_vec, g_child_starts_victim)
-//@LIFT body_start
+//@LIFT body
+#endif
+
+#ifdef U_WA_START
+/* when_all operation_state<.., I>::start: (the base class's start, then) this level's child operation is started, once each */
+//@FUNC
+void wa_start(struct wa_op *self)
+__CPROVER_requires(self == vx_op && g_base_starts == 0 && g_child_starts == 0)
+__CPROVER_ensures(g_child_starts == 1 && g_base_starts == WA_DERIVED)
+__CPROVER_assigns(g_base_starts, g_child_starts)
+//@LIFT body
 #endif
 
 void harness(void)
@@ -142,6 +152,11 @@ void harness(void)
   if (g_set_stopped) VX_REACH("last_signals_stopped");
 #endif
   if (g_set_value + g_set_error + g_set_stopped == 0) VX_REACH("not_last");
+#endif
+#ifdef U_WA_START
+  g_base_starts = 0; g_child_starts = 0;
+  wa_start(&op);
+  VX_REACH("started");
 #endif
 #ifdef U_WAV_START
   wav_start(&op);
